@@ -597,8 +597,9 @@ pub fn run_one<S: SchedSpec>(spec: &S, prefix: &[usize]) -> ExecResult {
                                 let (msg, loc) = crate::util::take_last_panic();
                                 let mut g = ex2.inner.lock().unwrap_or_else(|e| e.into_inner());
                                 if g.failure.is_none() {
+                                    let class = crate::util::panic_class(&loc, &msg);
                                     let loc = crate::util::short_loc(&loc);
-                                    g.failure = Some(Fail { clause: "panic".into(), class: loc.clone(), detail: format!("thread {tid} panicked at {loc}: {msg}") });
+                                    g.failure = Some(Fail { clause: "panic".into(), class, detail: format!("thread {tid} panicked at {loc}: {msg}") });
                                 }
                                 g.abort = true;
                             }
@@ -719,7 +720,7 @@ pub fn run_one<S: SchedSpec>(spec: &S, prefix: &[usize]) -> ExecResult {
             Err(_) => {
                 let (msg, loc) = crate::util::take_last_panic();
                 if res.failure.is_none() {
-                    res.failure = Some(Fail { clause: "panic".into(), class: crate::util::short_loc(&loc), detail: format!("finish panicked: {msg}") });
+                    res.failure = Some(Fail { clause: "panic".into(), class: crate::util::panic_class(&loc, &msg), detail: format!("finish panicked: {msg}") });
                 }
             }
         }
